@@ -11,7 +11,8 @@ Monitor (runtime monitoring; CPython is the reference executor):
         ast-changed        a statement of P that is neither the rewritten statement S (innermost statement covering the
                            diagnostic), nor an ancestor/descendant of S, is no longer present (ast.dump, order preserving)
         behaviour-changed  every function is called on the same literal arguments in P and P' (effect tracer eff(k),
-                           coroutines/generators driven to completion): (return value | exception type, effect log) differ.
+                           coroutines/generators driven to completion): (return value | exception type, effect log) differ,
+                           or the effect log of executing the module body itself differs.
                            For the two producers whose intent IS a behaviour change (missing_f, missing_await) the
                            fixed function of P' is compared with the generator's reference fix ("f" prefix / "await").
         still-reported     D(P') still has as many diagnostics with the applied diagnostic's (code, description) as D(P)
@@ -144,8 +145,12 @@ def _drive(v, log):
     return ("ret", _safe_repr(v))
 
 
+IMPORT = "<module import>"
+
+
 def observe(source: str, calls: dict) -> dict:
-    """fname -> list of (outcome, effect log); CPython is the judge."""
+    """fname -> list of (outcome, effect log); CPython is the judge. The pseudo-name IMPORT carries the effect log of
+    executing the module body."""
     ns: dict = {"__name__": "c16_exec"}
     out: dict = {}
     with warnings.catch_warnings():
@@ -153,7 +158,10 @@ def observe(source: str, calls: dict) -> dict:
         try:
             exec(compile(source, "<c16>", "exec"), ns)
         except BaseException as e:  # noqa: BLE001
-            return {f: [(("import-error", type(e).__name__), ())] for f in calls}
+            return {f: [(("import-error", type(e).__name__), ())] for f in list(calls) + [IMPORT]}
+        # what executing the module itself did (decorators, default arguments, class bodies of top-level definitions)
+        log0 = ns.get("LOG")
+        out[IMPORT] = [(("imported",), tuple(map(_safe_repr, log0)) if isinstance(log0, list) else ())]
         for fname, arglists in calls.items():
             res = []
             fn = ns.get(fname)
@@ -210,10 +218,13 @@ def innermost_stmt(tree, line: int, col: Optional[int]):
     best_line = None
     for s, anc in stmts_preorder(tree):
         end = getattr(s, "end_lineno", s.lineno)
-        if s.lineno <= line <= end:
+        # a decorated definition starts at the `@` of its first decorator
+        decos = getattr(s, "decorator_list", None)
+        lo, lo_col = (decos[0].lineno, max(decos[0].col_offset - 1, 0)) if decos else (s.lineno, s.col_offset)
+        if lo <= line <= end:
             best_line = (s, anc)
             if col is not None:
-                start_ok = (s.lineno, s.col_offset) <= (line, col)
+                start_ok = (lo, lo_col) <= (line, col)
                 end_ok = (line, col) < (end, getattr(s, "end_col_offset", 10 ** 9))
                 if start_ok and end_ok:
                     best = (s, anc)
@@ -333,6 +344,13 @@ def fix_step(source: str, calls: dict, refs: dict) -> dict:
             info["behaviour_pair"] = (expect[i], after[f][i])
             info["other_function"] = f != fname
             return info
+    if before[IMPORT] != after[IMPORT]:
+        info["violation"] = ("behaviour-changed",
+                             f"executing the module body: P gives {before[IMPORT][0]}, P' gives {after[IMPORT][0]}")
+        info["behaviour_pair"] = (before[IMPORT][0], after[IMPORT][0])
+        info["other_function"] = False
+        info["at_import"] = True
+        return info
     # still reported?
     nd = run_diags(new_code)
     kd = (d.code, d.description)
@@ -366,6 +384,7 @@ def step_features(source, tree, S, anc, d, change, new_code) -> dict:
     lo, hi = change["lines"][0], change["lines"][-1]
     f["removed_lines"] = (lo, hi)
     f["pure_removal"] = change["add"] == []
+    f["replaced_by_pass"] = [ln.strip() for ln in change["add"]] == ["pass"]
     if S is not None:
         s_lo, s_hi = S.lineno, S.end_lineno
         # other statements sharing a physical line with S (`a; b`, `if c: a`)
@@ -384,10 +403,12 @@ def step_features(source, tree, S, anc, d, change, new_code) -> dict:
         f["range_long"] = hi > s_hi
         parent_body = None
         holder = anc[-1] if anc else tree
-        for name in ("body", "orelse", "finalbody", "handlers"):
-            seq = getattr(holder, name, None)
-            if isinstance(seq, list) and any(x is S for x in seq):
-                parent_body = seq
+        # the statement list S stands in (bodies of except handlers and match cases hang off non-statement nodes)
+        for node in ast.walk(holder):
+            for name in ("body", "orelse", "finalbody"):
+                seq = getattr(node, name, None)
+                if parent_body is None and isinstance(seq, list) and any(x is S for x in seq):
+                    parent_body = seq
         f["sole_in_block"] = parent_body is not None and len(parent_body) == 1
         first_line = lines[s_lo - 1]
         ws = first_line[: len(first_line) - len(first_line.lstrip())]
@@ -395,11 +416,30 @@ def step_features(source, tree, S, anc, d, change, new_code) -> dict:
         f["compound"] = isinstance(S, (ast.If, ast.For, ast.While, ast.With, ast.Try, ast.FunctionDef, ast.AsyncFunctionDef, ast.ClassDef))
         f["multiline"] = s_hi > s_lo
         val = getattr(S, "value", None)
+        # evaluating the right-hand side can do something: it contains more than constants, names and tuple displays
+        # (calls, suspension points, operators and protocol hooks, lambda defaults, comprehensions, f-strings ...)
         f["rhs_has_call_or_yield"] = val is not None and any(
-            isinstance(n, (ast.Call, ast.Yield, ast.YieldFrom, ast.Await, ast.NamedExpr, ast.Subscript, ast.Attribute, ast.BinOp))
-            for n in ast.walk(val))
+            not isinstance(n, (ast.Constant, ast.Name, ast.Tuple, ast.expr_context)) for n in ast.walk(val))
         f["n_targets"] = len(S.targets) if isinstance(S, ast.Assign) else None
         f["has_comment_inside"] = any("#" in ln for ln in lines[s_lo - 1: s_hi])
+        # S is the `elif` clause of its parent (an If that is the whole orelse of an If and is spelled `elif`)
+        f["elif_clause"] = bool(
+            isinstance(S, ast.If) and anc and isinstance(anc[-1], ast.If) and len(anc[-1].orelse) == 1
+            and anc[-1].orelse[0] is S and first_line.lstrip().startswith("elif"))
+        # S is a decorated definition and P' carries more decorator lines than P
+        n_deco = len(getattr(S, "decorator_list", ()))
+        f["decorated_definition"] = n_deco > 0
+        f["decorator_lines_gained"] = False
+        if n_deco:
+            new_tree, _ = try_parse(new_code)
+            if new_tree is not None:
+                def count(t):
+                    return sum(len(n.decorator_list) for n in ast.walk(t)
+                               if isinstance(n, (ast.FunctionDef, ast.AsyncFunctionDef, ast.ClassDef)))
+                f["decorator_lines_gained"] = count(new_tree) > count(tree)
+            else:
+                f["decorator_lines_gained"] = sum(ln.lstrip().startswith("@") for ln in new_code.splitlines()) > sum(
+                    ln.lstrip().startswith("@") for ln in lines)
     else:
         text = lines[lo - 1] if lo - 1 < len(lines) else ""
         m = re.search(re.escape(_nv.IGNORE_COMMENT) + r"(\[[^\s\]]+\])?", text)
@@ -482,6 +522,11 @@ CONTEXTS = ["plain", "if-sole", "if-second", "else-sole", "for", "try", "semi-af
             "case-sole", "case-if-sole"]
 
 
+# the site as the WHOLE body of the remaining block kinds (enumerated for the removing producer; drawn at random for all)
+WHOLE_BODY_CONTEXTS = ["for-sole", "while-sole", "try-sole", "def-sole", "nested-def-sole"]
+ALL_CONTEXTS = CONTEXTS + WHOLE_BODY_CONTEXTS
+
+
 def apply_context(ctxname: str, site: Site, site_lines):
     """-> body lines (relative indentation), or None when the context does not apply to this site."""
     pre, post = list(site.pre), list(site.post)
@@ -518,6 +563,21 @@ def apply_context(ctxname: str, site: Site, site_lines):
         return pre + ["match a:", "    case None:", "        eff(3)", "    case _:"] + _ind(s, "        ") + post
     if ctxname == "case-if-sole":
         return pre + ["match a:", "    case None:", "        eff(3)", "    case _:", "        if a is not None:"] + _ind(s, "            ") + post
+    if ctxname == "for-sole":
+        return pre + ["for _k in range(2):"] + _ind(s, "    ") + post
+    if ctxname == "while-sole":
+        return pre + ["while eff(8) != 8:"] + _ind(s, "    ") + post
+    if ctxname == "try-sole":
+        return pre + ["try:"] + _ind(s, "    ") + ["except IndexError:", "    eff(6)"] + post
+    if ctxname == "def-sole":
+        # the site is the whole body of the function
+        if pre or post != ["return a"]:
+            return None
+        return s
+    if ctxname == "nested-def-sole":
+        if any(ln.lstrip().startswith(("return", "yield")) or "yield" in ln or "await" in ln for ln in s) or site.is_async:
+            return None
+        return pre + ["def inner():"] + _ind(s, "    ") + ["eff(inner())"] + post
     if ctxname in ("deep", "tab-deep"):
         return pre + ["for _k in range(2):", "    if a is not None:"] + _ind(["eff(7)"] + s, "        ") + post
     if ctxname == "semi-after":
@@ -676,6 +736,207 @@ def sites_unused():
         kw.setdefault("calls", I2)
         kw.setdefault("simple", len(lines) == 1)
         out.append(S("unused", shape, lines, **kw))
+    return out
+
+
+A10_TEXT = "1, 2, 3, 4, 5, 6, 7, 8, 9, 10"
+
+# ---- right-hand sides of an unused binding, enumerated by WHAT EVALUATING THEM DOES --------------------------------
+# An object whose every protocol hook logs an effect: the expression that triggers the hook contains no call node.
+DUNDER_TOP = [
+    "class K$N:",
+    "    @property",
+    "    def prop(self):",
+    "        return eff(1)",
+    "    def __getattr__(self, name):",
+    "        return eff(2)",
+    "    def __getitem__(self, i):",
+    "        return eff(3)",
+    "    def __add__(self, o):",
+    "        return eff(4)",
+    "    def __radd__(self, o):",
+    "        return eff(5)",
+    "    def __lt__(self, o):",
+    "        return bool(eff(6))",
+    "    def __eq__(self, o):",
+    "        return bool(eff(7))",
+    "    def __neg__(self):",
+    "        return eff(8)",
+    "    def __contains__(self, o):",
+    "        return bool(eff(9))",
+    "    def __bool__(self):",
+    "        return bool(eff(10))",
+    "    def __iter__(self):",
+    "        eff(11)",
+    "        return iter(())",
+    "    def __format__(self, spec):",
+    "        eff(12)",
+    "        return ''",
+    "def mk$N() -> K$N:",
+    "    return K$N()",
+]
+DUNDER = dict(top=DUNDER_TOP, pre=["k$N = mk$N()"])   # a local of declared type K$N (its hooks are not evaluated by the checker)
+CORO_TOP = ["async def c$N():", "    eff(1)", "    return 5"]
+GEN9 = dict(post=["return 9"])
+
+# (name, expression, Site keywords)
+EFFECT_RHS = [
+    # lambda: the body is inert, the DEFAULTS are evaluated where the lambda stands
+    ("lambda-default-positional", "lambda e, t=eff(1): (e, t)", {}),
+    ("lambda-default-keyword-only", "lambda e, *, t=eff(1): (e, t)", {}),
+    ("lambda-default-both", "lambda e=eff(1), *, t=eff(2): (e, t)", {}),
+    ("lambda-default-computed-by-lambda-call", "lambda e, t=(lambda: eff(1))(): e", {}),
+    ("lambda-default-dunder", "lambda e, t=-k$N: e", DUNDER),
+    ("lambda-default-inert", "lambda e, t=1: (e, t)", {}),
+    ("lambda-body-only", "lambda e: eff(1)", {}),
+    ("lambda-default-of-inner-lambda", "lambda: (lambda t=eff(1): t)", {}),
+    # comprehensions: the first iterable of a generator expression is evaluated eagerly, the rest lazily
+    ("listcomp-iterable", "[q for q in [eff(1)]]", {}),
+    ("listcomp-element", "[eff(1) for q in range(2)]", {}),
+    ("listcomp-condition", "[q for q in range(2) if eff(1)]", {}),
+    ("setcomp-iterable", "{q for q in [eff(1)]}", {}),
+    ("dictcomp-value", "{q: eff(1) for q in range(2)}", {}),
+    ("genexp-first-iterable", "(q for q in [eff(1)])", {}),
+    ("genexp-lazy-parts", "(eff(1) for q in range(2) if eff(2))", {}),
+    ("genexp-dunder-iter", "(q for q in k$N)", DUNDER),
+    # f-strings
+    ("fstring-call", "f'{eff(1)}'", {}),
+    ("fstring-call-in-spec", "f'{a:{eff(1)}}'", {}),
+    ("fstring-dunder-format", "f'{k$N}'", DUNDER),
+    ("fstring-inert", "f'{a}'", {}),
+    # conditional / boolean expressions
+    ("ifexp-body", "eff(1) if a else 2", {}),
+    ("ifexp-test", "1 if eff(1) else 2", {}),
+    ("ifexp-orelse", "2 if not a else eff(1)", {}),
+    ("boolop-and", "a and eff(1)", {}),
+    ("boolop-or", "a or eff(1)", {}),
+    ("boolop-dunder-bool", "k$N and 1", DUNDER),
+    # starred displays
+    ("starred-in-list", "[*[eff(1)]]", {}),
+    ("starred-in-tuple", "(*[eff(1)], 2)", {}),
+    ("starred-in-set", "{*[eff(1)]}", {}),
+    ("double-starred-in-dict", "{**{1: eff(1)}}", {}),
+    ("starred-name-dunder-iter", "(*k$N,)", DUNDER),
+    # walrus
+    ("walrus-read-in-the-same-expression", "[(w$N := eff(1)), w$N]", {}),
+    # protocol hooks of a user object: no call node anywhere
+    ("attribute-property", "k$N.prop", DUNDER),
+    ("attribute-getattr-hook", "k$N.missing", DUNDER),
+    ("attribute-plain", "OBJ.name", {}),
+    ("subscript-getitem", "k$N[0]", DUNDER),
+    ("slice-getitem", "k$N[1:2]", DUNDER),
+    ("binop-add", "k$N + 1", DUNDER),
+    ("binop-radd", "1 + k$N", DUNDER),
+    ("unaryop-neg", "-k$N", DUNDER),
+    ("unaryop-not", "not k$N", DUNDER),
+    ("compare-lt", "k$N < 1", DUNDER),
+    ("compare-eq", "k$N == 1", DUNDER),
+    ("compare-in", "1 in k$N", DUNDER),
+    ("name-of-hook-object", "k$N", DUNDER),
+    # suspension points
+    ("yield", "(yield a)", GEN9),
+    ("yield-from", "(yield from [a, eff(1)])", GEN9),
+    ("await", "await c$N()", dict(top=CORO_TOP, is_async=True)),
+]
+RHS_DISPLAYS = [
+    ("alone", "@E@"), ("in-tuple", "(@E@, 2)"), ("in-nested-tuple", "((@E@,), 2)"), ("in-list", "[@E@, 2]"),
+    ("in-dict-value", "{1: @E@}"),
+]
+CANONICAL_EFFECT_RHS = {("lambda-default-positional", "alone"), ("lambda-default-keyword-only", "in-tuple"),
+                        ("attribute-property", "alone")}
+
+
+def sites_unused_effects():
+    out = []
+    for name, expr, kw in EFFECT_RHS:
+        for dname, disp in RHS_DISPLAYS:
+            rhs = disp.replace("@E@", expr)
+            out.append(Site("unused", f"fx:{name}/{dname}", ["x$N = " + rhs], canonical=(name, dname) in CANONICAL_EFFECT_RHS, **kw))
+    # the same right-hand sides where the name is assigned again (unused_assignment), alone only
+    for name, expr, kw in EFFECT_RHS:
+        kw = dict(kw)
+        post = kw.pop("post", ["return a"])
+        out.append(Site("unused", f"fx:{name}/reassigned", ["x$N = " + expr], post=["x$N = 2", "eff(x$N)"] + post, **kw))
+    # a nested definition is a binding as well; its default arguments / decorators / bases run where it stands
+    out.append(Site("unused", "fx:nested-def-default/unused-def", ["def x$N(q=eff(1)):", "    return q"], simple=False, expect_fix=False))
+    out.append(Site("unused", "fx:nested-def-decorator/unused-def", ["@eff", "def x$N():", "    return 1"], simple=False, expect_fix=False))
+    out.append(Site("unused", "fx:nested-class-base/unused-class", ["class x$N(eff(1) and object):", "    pass"], simple=False, expect_fix=False))
+    return out
+
+
+# ---- blocks in which EVERY statement is an unused binding (what is left of the block after one run / all runs?) ---------
+def sites_unused_blocks():
+    out = []
+    for name, lines, canon in [
+        ("2-removable", ["x$N = 1", "y$N = a"], True),
+        ("3-removable", ["x$N = 1", "y$N = (a, 'b')", "z$N = None"], True),
+        ("2-removable-same-name", ["x$N = 1", "x$N = 2"], True),
+        ("removable-then-effect", ["x$N = 1", "y$N = eff(2)"], True),
+        ("effect-then-removable", ["y$N = eff(2)", "x$N = 1"], False),
+        ("2-effects", ["x$N = eff(1)", "y$N = [eff(2)]"], False),
+        ("2-removable-blank-line-between", ["x$N = 1", "", "y$N = a"], False),
+        ("2-removable-comment-between", ["x$N = 1", "# about y", "y$N = a"], False),
+        ("2-removable-multi-line", ["x$N = (1,", "       2)", "y$N = (a,", "       a)"], False),
+        ("removable-then-comprehension-variable", ["x$N = 1", "[eff(3) for i$N in range(2)]"], False),
+        ("2-removable-one-line", ["x$N = 1; y$N = a"], False),
+    ]:
+        out.append(Site("unused", f"blk:{name}", lines, simple=False, canonical=canon))
+    return out
+
+
+# ---- the fix site in the HEADER of a compound statement / definition (the rewritten statement is the compound one) ------
+DECO_TOP = ["def deco$N(fn):", "    eff(9)", "    return fn", "def decoarg$N(v):", "    eff(v)", "    return deco$N"]
+HEADER_KINDS = [
+    # (kind, lines with {T} = a test built from the expression / {E} = the expression, needs top)
+    ("if", ["if {T}:", "    eff(1)", "else:", "    eff(2)"], []),
+    ("elif", ["if a == 5:", "    eff(3)", "elif {T}:", "    eff(1)", "else:", "    eff(2)"], []),
+    ("elif-without-else", ["if a == 5:", "    eff(3)", "elif {T}:", "    eff(1)"], []),
+    ("second-elif", ["if a == 5:", "    eff(3)", "elif a == 6:", "    eff(4)", "elif {T}:", "    eff(1)", "else:", "    eff(2)"], []),
+    ("elif-followed-by-elif", ["if a == 5:", "    eff(3)", "elif {T}:", "    eff(1)", "elif a == 1:", "    eff(4)"], []),
+    ("if-nested-in-else", ["if a == 5:", "    eff(3)", "else:", "    if {T}:", "        eff(1)", "    else:", "        eff(2)"], []),
+    ("while", ["while {T}:", "    eff(1)", "    break", "else:", "    eff(2)"], []),
+    ("for-iterable", ["for _q in [{E}]:", "    eff(_q)", "else:", "    eff(2)"], []),
+    ("with-item", ["with open('/dev/null' if {T} else '/dev/zero') as _fh:", "    eff(1)"], []),
+    ("match-subject", ["match {E}:", "    case _q if a == 5:", "        eff(1)", "    case _:", "        eff(2)"], []),
+    ("case-guard", ["match a:", "    case 5:", "        eff(3)", "    case _ if {T}:", "        eff(1)", "    case _:", "        eff(2)"], []),
+    ("assert", ["assert ({E}) != 0, 'msg'"], []),
+    ("def-default", ["def inner$N(b={E}):", "    return b", "eff(inner$N())"], []),
+    ("def-default-decorated", ["@deco$N", "def inner$N(b={E}):", "    return b", "eff(inner$N())"], DECO_TOP),
+    ("def-default-two-decorators", ["@deco$N", "@decoarg$N(7)", "def inner$N(b={E}):", "    return b", "eff(inner$N())"], DECO_TOP),
+    ("def-keyword-only-default-decorated", ["@deco$N", "def inner$N(*, b={E}):", "    return b", "eff(inner$N())"], DECO_TOP),
+    ("async-def-default-decorated", ["@deco$N", "async def inner$N(b={E}):", "    return b", "eff(inner$N)"], DECO_TOP),
+    ("decorator-argument", ["@decoarg$N({E})", "def inner$N():", "    return 1", "eff(inner$N())"], DECO_TOP),
+    ("class-keyword-decorated", ["@deco$N", "class Inner$N(object, metaclass=type if {T} else type):", "    pass", "eff(Inner$N.__name__)"], DECO_TOP),
+]
+HEADER_EXPRS = [
+    # (producer, expression, reference expression or None, test built from it)
+    ("missing_f", '"v={a}!"', 'f"v={a}!"', "{E} == 'v=1!'"),
+    ("use_fstrings", '"%s" % a', None, "{E} == '1'"),
+    ("too_many_positional_args", f"g$N({A10_TEXT})", None, "{E} == 1"),
+    ("unused", "[1 for i$N in range(a)]", None, "{E} == [1]"),
+]
+
+
+def sites_headers():
+    out = []
+    calls = (("1",), ("5",), ("2",))
+    g_top = ["def g$N(p1, p2, p3, p4, p5, p6, p7, p8, p9, p10):", "    return p1"]
+    for producer, expr, ref, test in HEADER_EXPRS:
+        for kind, lines, top in HEADER_KINDS:
+            def fill(e):
+                return [ln.replace("{T}", test).replace("{E}", e) for ln in lines]
+            out.append(Site(producer, f"hdr:{kind}", fill(expr), ref_site=None if ref is None else fill(ref),
+                            top=(g_top if producer == "too_many_positional_args" else []) + list(top),
+                            params=("a: int",), calls=calls, simple=False))
+        if producer in INTENT_CHANGING:
+            continue
+        # a decorated definition at module level: what running the module does is part of the behaviour
+        mod_top = DECO_TOP + (g_top if producer == "too_many_positional_args" else []) + ["a$N = 1"]
+        mod_def = ["@deco$N", "def h$N(b={E}):", "    return b"]
+        mod_expr = expr.replace("{a}", "{a$N}").replace("% a", "% a$N").replace("range(a)", "range(a$N)")
+        out.append(Site(producer, "hdr:module-level-def-default-decorated", ["return h$N()"], post=[],
+                        ref_site=None, top=mod_top + [ln.replace("{E}", mod_expr) for ln in mod_def], params=("a: int",), calls=calls,
+                        canonical=False))
     return out
 
 
@@ -851,7 +1112,7 @@ def sites_use_fstrings():
     return out
 
 
-P10 = "p1, p2, p3, p4, p5, p6, p7, p8, p9, p10"
+P10 = "p1, p2, p3, p4, p5, p6, p7, p8, p9, p10"  # (A10_TEXT above is the matching argument list)
 RET10 = "    return (p1, p2, p3, p4, p5, p6, p7, p8, p9, p10)"
 A10 = "1, 2, 3, 4, 5, 6, 7, 8, 9, 10"
 
@@ -992,6 +1253,7 @@ def all_sites() -> dict:
             "unused": sites_unused(), "missing_f": sites_missing_f(), "use_fstrings": sites_use_fstrings(),
             "too_many_positional_args": sites_too_many(), "unused_ignore": sites_unused_ignore(),
             "missing_await": sites_missing_await(), "riders": rider_sites(),
+            "unused_rhs": sites_unused_effects(), "unused_blocks": sites_unused_blocks(), "headers": sites_headers(),
         })
     return _POOLS
 
@@ -1028,10 +1290,14 @@ def fix_mech_key(info: dict, source: str) -> str:
         return "*|*|ast-changed:whole-physical-lines-replaced-so-a-statement-sharing-the-line-is-lost"
     if f.get("range_short"):
         return "*|*|*:line-range-of-multi-line-statement-stops-before-its-last-line"
+    if f.get("elif_clause") and clause in ("behaviour-changed", "ast-changed", "unparsable"):
+        return "*|If|*:elif-clause-re-emitted-as-a-separate-if-statement"
+    if f.get("decorated_definition") and f.get("decorator_lines_gained"):
+        return "*|*|*:decorators-of-a-rewritten-definition-emitted-a-second-time"
     if f.get("tab_indent") and not f.get("pure_removal") and clause == "unparsable":
         return "*|*|unparsable:tab-indented-statement-re-emitted-with-spaces"
-    if producer == "unused" and f.get("pure_removal"):
-        if f.get("sole_in_block") and clause == "unparsable":
+    if producer == "unused" and (f.get("pure_removal") or f.get("replaced_by_pass")):
+        if f.get("sole_in_block") and clause == "unparsable" and f.get("pure_removal"):
             return "unused|Assign|unparsable:only-statement-of-a-block-removed"
         if clause == "behaviour-changed" and f.get("n_targets") == 1 and f.get("rhs_has_call_or_yield") and not info.get("other_function"):
             return "unused|Assign|behaviour-changed:right-hand-side-evaluation-removed-with-the-binding"
@@ -1231,7 +1497,14 @@ def run_fix_program(ctx, prog, seen_keys, label: str) -> Optional[str]:
         ctx.count("fix_applied")
         ctx.count(f"fix_applied:{producer}")
         ctx.histo("rewritten_statement_type", f"{producer}:{info['stmt_type']}")
-        ctx.histo("context_of_applied_fix", next((m[3] for m in prog["meta"] if m[0] == info["fname"]), "?"))
+        unit = next((m for m in prog["meta"] if m[0] == info["fname"]), None)
+        ctx.histo("context_of_applied_fix", unit[3] if unit else "?")
+        if unit and ":" in unit[2][:4]:
+            # the site classes added for hidden effects (fx), all-removable blocks (blk), compound-statement headers (hdr)
+            ctx.count(f"fix_applied@{unit[2].split(':')[0]}")
+            ctx.histo(f"site_class_{unit[2].split(':')[0]}", unit[2].split("/")[0] + ("" if info["violation"] is None else ":" + info["violation"][0]))
+            if unit[2].startswith("fx:"):
+                ctx.histo("unused_fix_form", "removed" if info["features"].get("pure_removal") else "kept-as-expression-statement")
         ctx.histo("step_index_of_applied_fix", str(step))
         ctx.nontrivial((producer, info["shape"]))
         if step == 0:
@@ -1265,8 +1538,11 @@ def enumerate_fix_programs(ctx):
         if pname == "riders":
             continue
         for si, s in enumerate(sites):
-            if s.canonical or ctx.tier == "thorough":
-                for c in CONTEXTS[1:]:
+            everywhere = ctx.tier == "thorough" and (
+                pname not in ("unused_rhs", "headers") or s.shape.endswith(("/alone", "/in-tuple"))
+                or s.shape in ("hdr:elif", "hdr:def-default-decorated"))
+            if s.canonical or everywhere:
+                for c in CONTEXTS[1:] + (WHOLE_BODY_CONTEXTS if s.producer == "unused" else []):
                     out.append((f"{pname}#{si}@{c}", [(s, c)]))
     return out
 
@@ -1278,7 +1554,7 @@ def random_fix_program(rng):
     units = []
     for _ in range(n):
         s = rng.choice(flat if rng.random() < 0.6 else [x for x in flat if x.canonical])
-        units.append((s, rng.choice(CONTEXTS)))
+        units.append((s, rng.choice(ALL_CONTEXTS)))
     header = rng.choice(["", "", "#!/usr/bin/env python\n", "# a leading comment\n\n"])
     return units, header
 
@@ -1784,9 +2060,26 @@ RULE = (
     "comprehension forms; missing_f: 28 literal forms x 5 statement kinds + multi-line, call contexts; use_fstrings: 22 "
     "one-specifier and 4 two-specifier templates x 19+6 operand forms (typed int/bool/float/str/tuple/IntEnum parameters, "
     "attributes, 1-tuples) x 5 statement kinds; too_many_positional_args: 23 callee/call forms x 4 statement kinds; "
-    "unused_ignore: 23 comment placements; missing_await: 5) in the plain context, every canonical site (thorough: every "
-    "site) in 24 further contexts (sole/second statement of if/elif/else/for/for-else/try/except/try-else/finally/with/case blocks, nested once more, `;` neighbours, one-line if, "
-    "comments, nested def, two nesting levels, tab indentation), ~100 decompiler riders, plus random 2-3 unit combinations; "
+    "unused_ignore: 23 comment placements; missing_await: 5; "
+    "unused binding whose right-hand side is enumerated by WHAT EVALUATING IT DOES: 48 expression kinds with the effect tracer "
+    "inside although the top node looks inert (lambda positional / keyword-only / nested defaults, comprehension iterables, "
+    "elements and conditions incl. the eager first iterable of a generator expression, f-string fields and specs, conditional "
+    "and boolean operands, starred and double-starred displays, walrus, attribute / subscript / slice / arithmetic / unary / "
+    "comparison / containment / truth / iteration / format hooks of a typed user object (property, __getattr__, __getitem__, "
+    "__add__, __radd__, __neg__, __lt__, __eq__, __contains__, __bool__, __iter__, __format__), yield / yield from / await; "
+    "inert controls of each family) x 5 placements (alone, in a tuple, a nested tuple, a list, a dict value) + each alone with "
+    "the name assigned again, + unused nested def / class whose default, decorator or base has an effect; "
+    "blocks in which EVERY statement is an unused binding: 11 forms (2-3 removable, same name twice, removable + effect in both "
+    "orders, blank line / comment / multi-line / one-line layouts, with a comprehension variable); "
+    "fix site in the HEADER of a compound statement or definition (the rewritten statement is the compound one): 19 header "
+    "kinds (if, elif x4 arrangements, if nested in else, while, for iterable, with item, match subject, case guard, assert, "
+    "default of a plain / decorated / twice decorated / keyword-only / async nested def, decorator argument, keyword of a decorated "
+    "class) x 4 producers + a decorated module-level def (effects of executing the module body are observed too)) "
+    "in the plain context, every canonical site (thorough: every site; of the last two families the alone / in-tuple placements "
+    "and the elif / decorated-default kinds) in 24 further contexts (sole/second statement of if/elif/else/for/for-else/try/except/"
+    "try-else/finally/with/case blocks, nested once more, `;` neighbours, one-line if, comments, nested def, two nesting levels, "
+    "tab indentation), sites of the removing producer also as the WHOLE body of a for / while / try / function / nested function, "
+    "~100 decompiler riders, plus random 2-3 unit combinations over all of these; "
     "every program is iterated until nothing is applied. add-ignores case = one whole history of a vp.illtyped program "
     "(LF / tab / CRLF) or of a single-snippet / line-1 / last-line program. Non-trivial = a replacement was proposed and "
     "applied (fix) or the program has diagnostics (add-ignores); distinct by (producer, node-type skeleton of the "
@@ -1794,7 +2087,8 @@ RULE = (
 )
 ASSUMPTIONS = [
     "CPython 3.12 executing P and P' on the generator's literal arguments is the judge of behaviour: (return value | exception "
-    "type, effect log of eff()); coroutines and generators are driven to completion (<= 50 resumptions)",
+    "type, effect log of eff()); coroutines and generators are driven to completion (<= 50 resumptions); the effect log of "
+    "executing the module body (decorators, defaults of top-level definitions) is compared as well",
     "intent of a fix: unused-variable removal, use_fstrings, too_many_positional_args, unused_ignore are refactorings (P' must "
     "behave like P); missing_f and missing_await intend a behaviour change and are compared with the reference fix written by "
     "the generator ('f' prefix on the literal; `await` / in a plain def `yield from` in front of the call)",
@@ -1817,10 +2111,12 @@ LEVEL_TEXT = (
 NSHARDS = 16
 WATCHDOG_S = {"quick": 3600, "thorough": 14400}
 FLOORS = {
-    "quick": {"distinct_nontrivial": 400, "fix_steps_run": 3000, "fix_applied": 1400, "fix_applied:unused": 95,
+    "quick": {"distinct_nontrivial": 570, "fix_steps_run": 5000, "fix_applied": 2200, "fix_applied:unused": 480,
+              "fix_applied@fx": 210, "fix_applied@blk": 125, "fix_applied@hdr": 48,
               "fix_applied:missing_f": 290, "fix_applied:use_fstrings": 600, "fix_applied:too_many_positional_args": 220,
               "fix_applied:unused_ignore": 130, "fix_applied:missing_await": 20, "ignore_programs": 280,
               "ignore_outcome:fixpoint": 160, "ignore_comment_removal_checks": 300, "no_fixpoint_rechecked_to_the_limit": 2,
               "cli_runs": 4},
-    "thorough": {"distinct_nontrivial": 1779, "fix_steps_run": 14433, "fix_applied": 6753, "fix_applied:unused": 570, "fix_applied:missing_f": 1378, "fix_applied:use_fstrings": 3770, "fix_applied:too_many_positional_args": 789, "fix_applied:unused_ignore": 191, "fix_applied:missing_await": 53, "ignore_programs": 1665, "ignore_outcome:fixpoint": 549, "ignore_comment_removal_checks": 2310, "no_fixpoint_rechecked_to_the_limit": 8, "cli_runs": 12},
+    "thorough": {"distinct_nontrivial": 1779, "fix_steps_run": 14433, "fix_applied": 6753, "fix_applied:unused": 570, "fix_applied:missing_f": 1378, "fix_applied:use_fstrings": 3770, "fix_applied:too_many_positional_args": 789, "fix_applied:unused_ignore": 191, "fix_applied:missing_await": 53, "ignore_programs": 1665, "ignore_outcome:fixpoint": 549, "ignore_comment_removal_checks": 2310, "no_fixpoint_rechecked_to_the_limit": 8, "cli_runs": 12,
+                 "fix_applied@fx": 210, "fix_applied@blk": 125, "fix_applied@hdr": 48},
 }
